@@ -80,7 +80,8 @@ func descend(v interface{}, depth int) interface{} {
 			if mt != 4 && mt != 5 {
 				continue
 			}
-			if err := decMode.Unmarshal(rest, &inner); err != nil {
+			dec := decMode.NewDecoder(bytes.NewReader(rest))
+			if err := dec.Decode(&inner); err != nil || dec.NumBytesRead() != len(rest) {
 				continue
 			}
 			switch inner.(type) {
